@@ -2,6 +2,7 @@ package main
 
 import (
 	"fmt"
+	"go/constant"
 	"go/token"
 	"go/types"
 	"sort"
@@ -167,6 +168,24 @@ func runC04(c *Ctx) {
 	for _, am := range acts {
 		c.checkRefusal("action-guard", am.Fn, 0, actionGuardAtom, "")
 		guardOf[am.Const] = append(guardOf[am.Const], am.Fn.Name())
+	}
+
+	// the guard itself answers from the offers stored for that seat (a membership scan of
+	// PlayerState.AllowedActions): offers are withdrawn by clearing that list and by nothing else,
+	// so a guard that recomputes what the seat could be offered accepts actions after the withdrawal
+	if gfn := p.Func("pokerface", ea.playerImpl, "CheckAction"); gfn == nil {
+		c.undecided("action-guard", "CheckAction#predicate", "-", "guard predicate not found")
+	} else {
+		c.touch(fnKey(gfn))
+		verdict, why := membershipOfField(gfn, "pokerface.PlayerState.AllowedActions", 0)
+		switch verdict {
+		case "yes":
+			c.check(true, "action-guard", fnKey(gfn)+"#predicate", p.FnPos(gfn), "the guard is a membership test of the stored offers of the seat", "")
+		case "no":
+			c.check(false, "action-guard", fnKey(gfn)+"#predicate", p.FnPos(gfn), "", "the action guard does not answer from the stored offers", why)
+		default:
+			c.undecided("action-guard", fnKey(gfn)+"#predicate", p.FnPos(gfn), "shape of the guard predicate not recognised: "+why)
+		}
 	}
 
 	// --- operation-guard
@@ -375,9 +394,37 @@ func runNoStaleOffers(c *Ctx, ea *engineAnchors, rule string, only string) {
 		}
 	}
 	c.role("action wait event", actionWait)
+	// functions that themselves store a non-empty offer list (AllowActions, AllowAction, ...)
+	granters := map[*ssa.Function]bool{}
+	{
+		ix := p.Index()
+		for _, w := range ix.AnyWriters("pokerface.PlayerState.AllowedActions") {
+			for _, in := range ix.WriteInstrs(w, "pokerface.PlayerState.AllowedActions") {
+				if st, ok := in.(*ssa.Store); ok && !emptySliceValue(st.Val) {
+					granters[w] = true
+				}
+			}
+		}
+	}
 	isGrant := func(e *Event) bool {
+		if e.Kind == "loop" && e.Loop != nil {
+			// a pass that grants something to the seats it visits
+			for b := range e.Loop.Blocks {
+				for _, in := range b.Instrs {
+					if call, ok := in.(ssa.CallInstruction); ok {
+						if f := call.Common().StaticCallee(); f != nil && granters[f] {
+							return true
+						}
+					}
+				}
+			}
+			return false
+		}
 		if e.Kind != "call" && e.Kind != "enter" {
 			return false
+		}
+		if e.Fn != nil && granters[e.Fn] {
+			return true
 		}
 		if strings.HasSuffix(e.Callee, ".SetCurrentPlayer") && len(e.Args) >= 2 && e.Args[1].String() != "nil" {
 			return true
@@ -424,6 +471,9 @@ func runNoStaleOffers(c *Ctx, ea *engineAnchors, rule string, only string) {
 					holding = ""
 				} else if isGrant(e) {
 					holding = e.Callee + " at " + e.Pos
+					if e.Kind == "loop" {
+						holding = "a loop of " + e.Loop.Fn.Name()
+					}
 				}
 			}
 			if holding != "" {
@@ -861,4 +911,117 @@ func bodyHelpers(owner, mover *ssa.Function) func(*ssa.Function) bool {
 	return func(f *ssa.Function) bool {
 		return privateHelper(owner, f) && f != mover && len(findLoops(f)) == 0
 	}
+}
+
+// membershipOfField: fn (one string parameter besides the receiver/seat) returns true exactly when
+// the parameter equals an element of the list stored in field key. "yes", "no" (with the
+// reason) or "" when the shape is not one of: a full range loop over a load of the field that
+// returns true on an equal element and false after the loop; slices.Contains on that load; a
+// direct delegation to a function of one of these shapes.
+func membershipOfField(fn *ssa.Function, key string, depth int) (string, string) {
+	if fn == nil || len(fn.Blocks) == 0 || depth > 2 {
+		return "", "no body"
+	}
+	loops := findLoops(fn)
+	if len(loops) == 0 {
+		// delegation: every return is the result of one call
+		var call *ssa.Call
+		for _, b := range fn.Blocks {
+			r, ok := b.Instrs[len(b.Instrs)-1].(*ssa.Return)
+			if !ok {
+				continue
+			}
+			if len(r.Results) != 1 {
+				return "", "not a predicate"
+			}
+			if k, ok := r.Results[0].(*ssa.Const); ok && k.Value != nil && !constant.BoolVal(k.Value) {
+				continue // an early false (no such seat) only refuses more
+			}
+			cl, ok := r.Results[0].(*ssa.Call)
+			if !ok || (call != nil && call != cl) {
+				return "", "a return is neither a call nor false"
+			}
+			call = cl
+		}
+		if call == nil {
+			return "", "no delegation"
+		}
+		if n := extCalleeName(call.Common()); n == "slices.Contains" || strings.HasPrefix(n, "slices.Contains[") {
+			if loadsField(call.Call.Args[0], key) {
+				return "yes", ""
+			}
+			return "no", "slices.Contains over something other than the stored list"
+		}
+		if callee := call.Call.StaticCallee(); callee != nil {
+			return membershipOfField(callee, key, depth+1)
+		}
+		return "", "dynamic delegation"
+	}
+	if len(loops) != 1 {
+		return "", "more than one loop"
+	}
+	l := loops[0]
+	ri := analyseRange(l)
+	if ri.Kind != "slice" {
+		return "", "not a range over a slice"
+	}
+	if !loadsField(ri.Coll, key) {
+		return "no", "the scanned list is " + ri.Coll.String() + " (" + ri.Coll.Type().String() + "), not the stored " + key
+	}
+	if !ri.Full {
+		return "no", "the scan does not cover the whole list"
+	}
+	for _, b := range fn.Blocks {
+		r, ok := b.Instrs[len(b.Instrs)-1].(*ssa.Return)
+		if !ok || len(r.Results) != 1 {
+			continue
+		}
+		k, ok := r.Results[0].(*ssa.Const)
+		if !ok || k.Value == nil {
+			return "", "a return is not a constant"
+		}
+		v := constant.BoolVal(k.Value)
+		if l.Blocks[b] || (len(b.Preds) == 1 && l.Blocks[b.Preds[0]] && b.Preds[0] != l.Header) {
+			// inside the scan: only a hit
+			if !v {
+				return "no", "the scan gives up before the end of the list"
+			}
+			d := b.Preds[0]
+			iff, ok := d.Instrs[len(d.Instrs)-1].(*ssa.If)
+			if !ok {
+				return "", "hit not under a test"
+			}
+			bo, ok := iff.Cond.(*ssa.BinOp)
+			if !ok || bo.Op != token.EQL || d.Succs[0] != b {
+				return "", "hit not under an equality test"
+			}
+			isParam := func(x ssa.Value) bool { _, ok := x.(*ssa.Parameter); return ok }
+			if !(isParam(bo.X) || isParam(bo.Y)) {
+				return "no", "the hit does not compare an element with the requested action"
+			}
+		} else if v {
+			return "no", "accepts without a matching element"
+		}
+	}
+	return "yes", ""
+}
+
+// emptySliceValue: a fresh slice of length 0 ([]T{} or make([]T, 0)) or nil.
+func emptySliceValue(v ssa.Value) bool {
+	switch x := v.(type) {
+	case *ssa.Const:
+		return x.IsNil()
+	case *ssa.MakeSlice:
+		k, ok := constInt(x.Len)
+		return ok && k == 0
+	case *ssa.Slice:
+		if al, ok := x.X.(*ssa.Alloc); ok {
+			if pt, ok := al.Type().Underlying().(*types.Pointer); ok {
+				if at, ok := pt.Elem().Underlying().(*types.Array); ok && at.Len() == 0 {
+					return true
+				}
+			}
+		}
+	}
+	return false
 }
